@@ -544,6 +544,14 @@ def setup(argv):
             for res in ex.map(ring_raws, [n for n in ns if n > 4]):
                 for raw, st in res:
                     log('Ring.tla N=%d %s: %d states, %d scenarios (%.0fs)' % (st['n'], ','.join(st['families']), st['states'], st['scenarios'], st['wall_s']))
+    from . import apa
+    for r in apa.run_all('quick'):
+        log('apalache %s: %s (expected %s) %s' % (r['name'], r['outcome'], r['expected'], 'ok' if r['ok'] else 'FAILED'))
+        if not r['ok']:
+            return 2
+    for nm in (7, 6, 5, 4, 3):
+        raw, st = scen.z_raw(nm)
+        log('Ring.tla 3-bit word, N=%d: %d states, refinement holds (%.0fs)' % (nm, st['states'], st['wall_s']))
     log('setup done in %.0fs' % (time.time() - t0))
     return 0
 
